@@ -68,7 +68,16 @@ func init() {
 		return TupleV{info, e}
 	})
 	pure("os.Stat")
-	for _, k := range []string{"os.IsNotExist", "os.IsExist", "errors.Is"} {
+	reg("errors.Is", "a predicate of (err, target); false for a nil err; true when err == target", func(fr *Frame, in ssa.Instruction, st *State, args []Value, rt types.Type) Value {
+		fn := B.DeclareFun("err.is", []string{SRef, SRef}, SBool)
+		e, tg := args[0].(IfaceV), args[1].(IfaceV)
+		r := B.App(fn, SBool, e.Ref, tg.Ref)
+		fr.p.assume(True(), Implies(Eq(e.Ref, BVInt(0, 64)), Not(r)))
+		fr.p.assume(True(), Implies(And(Neq(e.Ref, BVInt(0, 64)), Eq(e.Ref, tg.Ref)), r))
+		return Scalar{r}
+	})
+	pure("errors.Is")
+	for _, k := range []string{"os.IsNotExist", "os.IsExist"} {
 		k := k
 		reg(k, "a predicate of the error; false for nil", func(fr *Frame, in ssa.Instruction, st *State, args []Value, rt types.Type) Value {
 			fn := B.DeclareFun("err."+sanitize(k), []string{SRef}, SBool)
